@@ -30,7 +30,8 @@ TreeNames ==
   {<<>>} \cup {<<x>> : x \in Labels3} \cup {<<x, y>> : x, y \in Labels3}
   \cup {<<x, y, z>> : x, y, z \in Labels3}
   \cup {<<Lc, Lb, Lz>>, <<Lz, Lc, Lb, La>>, <<<<0, 255, 46, 92>>, Lb, La>>, <<Rep(63, 120), La>>,
-        <<<<65>>>>, <<<<99, 98>>, La>>}      \* differs in trailing / leading label; binary; maximal; case; "cb"."a"
+        <<<<65>>>>, <<<<99, 98>>, La>>,      \* differs in trailing / leading label; binary; maximal; case; "cb"."a"
+        [i \in 1 .. 127 |-> <<97 + (i % 3)>>]}   \* 127 one-byte labels: 255 bytes, the most labels a name can have
 
 TTLs == {<<0, 0, 0, 0>>, <<0, 0, 0, 1>>, <<127, 255, 255, 255>>, <<128, 0, 0, 0>>, <<255, 255, 255, 255>>, <<1, 2, 3, 4>>}
 
